@@ -401,7 +401,7 @@ def run_check(run, tier, seed, shard):
     run.assume('inputs are harness-poked undriven wires; within one clk(n) call they are constant, so splittings are compared with inputs changing only at shared call boundaries')
     quick = tier == 'quick'
     stats = {}
-    n_designs = 264 if quick else 12000
+    n_designs = 264 if quick else 9000
     cap = 120 if quick else 500
     budget = 400 if quick else 2400
     t0 = time.time()
